@@ -598,6 +598,10 @@ func stressEvict(r *hx.Run, f []string) {
 		}
 		parMust(jobs...)
 		last := st.LastEvictedSlot()
+		// probe: no untriggered event may be left in the map for an evicted slot (a request now gets a triggered event)
+		for slot := 0; slot <= last; slot++ {
+			all = append(all, held{slot, st.EvictionEvent(slot)})
+		}
 		seen := map[string]bool{}
 		var parts []string
 		bad := ""
